@@ -105,6 +105,9 @@ pub fn exec(tag: i64, inp: &[i64]) -> Vec<i64> {
             if !sc.run(&mut clock, msg, &mut out) {
                 return vec![PANIC];
             }
+            if !crate::sm::debug_touch(&sc) {
+                return vec![PANIC];
+            }
             vec![out.iter().all(|&x| x == NONE) as i64, (sc == before) as i64]
         }
         161 => {
@@ -168,6 +171,12 @@ pub fn exec(tag: i64, inp: &[i64]) -> Vec<i64> {
                 return vec![PANIC];
             }
             let t1 = clock.0;
+            // `{:?}` of a scanner in any reachable state, at any later time, does not panic
+            helgoboss_midi::verif_hooks::set_now(t1.saturating_add(inp[1].max(0) as u64).saturating_add(1));
+            if !crate::sm::debug_touch(&a) {
+                return vec![PANIC];
+            }
+            helgoboss_midi::verif_hooks::set_now(t1);
             let mut c = a; // copies taken before the reset
             let mut d = a;
             let saved = a;
